@@ -402,6 +402,16 @@ impl Check for C05 {
                 }
             }
         }
+        // strings of hundreds of KiB to a few MiB (whatever an escaper does differently "for large
+        // inputs": chunking, a plain-prefix copy, a smaller reservation), ASCII and multi-byte
+        // fillers, one special sequence near the end or none
+        if g.scale >= 0.5 {
+            for i in 0..(if g.tier == Tier::Quick { 32u64 } else { 160 }) {
+                if g.mine(9000 + i) {
+                    emit(Case::with("huge", vec![], &[i as i64]));
+                }
+            }
+        }
         // random texts
         let n = g.count(20_000, 600_000);
         for _ in 0..n {
@@ -448,6 +458,32 @@ impl Check for C05 {
                 }
                 check_string(ctx, &s);
                 ctx.sample(cname);
+            }
+            "huge" => {
+                let i = c.p(0) as usize;
+                const LENS: [usize; 8] = [262_144, 262_145, 262_151, 262_175, 300_001, (1 << 20) + 5, (4 << 20) + 33, 5_242_883];
+                const SPECIALS: [&str; 8] = ["\n", "\"", "\\", "\u{1f}", "\u{0}", "\t", "\r\n", ""];
+                const BACK: [usize; 8] = [0, 1, 5, 13, 30, 31, 32, 40];
+                let len = LENS[i % 8] + (i / 32) * 3;
+                let filler: &[&str] = [&["QUJD", "RUZH", "0123", "abcd"][..], &["中", "文", "字"][..], &["é", "ü", "ñ"][..], &["a", "é", "中", "😀", "bcdefgh"][..]][(i / 2) % 4];
+                let special = SPECIALS[(i / 8 + i) % 8];
+                let back = BACK[(i * 3 + i / 8) % 8];
+                let mut s = String::with_capacity(len + 16);
+                let mut k = 0usize;
+                while s.len() < len {
+                    s.push_str(filler[k % filler.len()]);
+                    k += 1;
+                }
+                // the special sequence `back` bytes before the end (moved to a character boundary)
+                let at = (0..=s.len().saturating_sub(back)).rev().find(|p| s.is_char_boundary(*p)).unwrap_or(0);
+                s.insert_str(at, special);
+                ctx.nontrivial();
+                ctx.class("str:huge");
+                check_string(ctx, &s);
+                ctx.sample("huge");
+                if let Some(last) = ctx.samples.last_mut() {
+                    last["value"] = serde_json::json!(format!("{} bytes of {:?}…, {:?} {} bytes before the end", s.len(), filler, special, back));
+                }
             }
             "str" => {
                 let s = String::from_utf8_lossy(&c.input).into_owned();
@@ -512,6 +548,7 @@ impl Check for C05 {
         let mut v = vec!["str:quote", "str:c0", "str:utf8-4", "str:len>=32", "dyn:value", "dyn:bad-key", "dyn:failing-writers"];
         if b == "native-rel" {
             v.push("str:guard-page");
+            v.push("str:huge");
         }
         v
     }
